@@ -14,8 +14,8 @@
      - every path releases what it acquired (deferred releases run at the end of the path), a Release matches the
        mode acquired by the same frame;
      - no Leak, no Unknown; every called method exists with the right exported flag and has at least one path.
-   atomic_ok  (=> serializability clause): every exported method, except those in the list `excl`, is "two-phase":
-     see the definition below. *)
+   atomic_ok  (=> two-phase locking => conflict serializability, LockAtomic.v): every method, except the exported methods in
+     the list `excl`, is "two-phase": see the definition at the end of this file. *)
 From Coq Require Import List String Bool Arith Lia.
 From V Require Import Conc.LockLang.
 Import ListNotations.
